@@ -666,18 +666,24 @@ def run(args):
     cov["exhaustive"] = False
     cov["rule"] = ("programs = calls of the library's simplifying printers (simplify_complex_numeric_expression, simplify_inequality "
                    "with and without assumptions, simplify_equality, NumericalExpressionTree.simplify_complex_numerical_pddl_expression, "
-                   "Precondition._simplify_numeric_preconditions, Precondition.print) on generated inputs: polynomials (sums of "
-                   "coefficient*monomial in several shapes, products of small sums, constant sub-expressions) and rational expressions "
-                   "(division by constants and by fluent expressions) of degree <= 3 over 1-4 fluents from 6 vocabularies (lifted and grounded, "
-                   "dashes, underscores, digits), integer / short-decimal / near-integer (k +- 1e-5) / rounding-boundary coefficients, "
-                   "all comparison operators, 0-2 linear equalities usable for elimination, duplicates and identities, digits 0..6 "
-                   "(>= 3 when a divisor is not constant: the checker has no rounding tolerance there); plus the pinned tests' inputs, the D21 "
-                   "witnesses and colliding fluent names.  Each output is validated in Coq by check_pre/check_under/check_expr and at "
-                   "3-4 rational points (chosen to satisfy the linear equalities).  Every convert_expr_to_pddl / transform_expression call "
-                   "made by the library is replayed on the Coq glue model (deduplicated).  Non-trivial: the input has >= 2 arithmetic "
-                   "operators or several conditions (glue: the tree is not a single atom); distinct by input hash.")
+                   "Precondition._simplify_numeric_preconditions, Precondition.print on a conjunction and on a DISJUNCTION, str(precondition), "
+                   "CompoundPrecondition.print / str() on a compound precondition with a nested (or ...) and a universally quantified (and ...) / "
+                   "(or ...) - one case per printed group) on generated inputs: polynomials (sums of coefficient*monomial in several shapes, "
+                   "products of small sums, constant sub-expressions) and rational expressions (division by constants and by fluent "
+                   "expressions) of degree <= 3 over 1-4 fluents from 6 vocabularies (lifted and grounded, dashes, underscores, digits), "
+                   "integer / short-decimal / near-integer (k +- 1e-5) / rounding-boundary / tiny coefficients, all comparison operators, 0-2 "
+                   "linear equalities usable for elimination (also chains: the second eliminates what the first brings in, either order), "
+                   "duplicates and identities, digits 0..6 with 0 and 1 a third of the time (>= 3 when a divisor is not constant: the checker "
+                   "has no rounding tolerance there); inputs that are undefined on the whole solution set of their own linear equalities (a "
+                   "divisor forced to zero) are not generated.  Plus the pinned tests' inputs, the witnesses of every repaired defect, "
+                   "corpus/C13/*.json, colliding fluent names, the numeric condition sets of the shipped domains (re-built, entries pre and "
+                   "print) and Precondition.print on the shipped domains' OWN precondition nodes.  Each output is validated in Coq by "
+                   "check_pre / check_under / check_expr / check_or and at 3-4 rational points on the solution set of the input's linear "
+                   "equalities (exact solve).  Every convert_expr_to_pddl / transform_expression call made by the library is replayed on the "
+                   "Coq glue model (deduplicated) and its symbol table checked for the shape C13_glue_readback assumes.  Non-trivial: the "
+                   "input has >= 2 arithmetic operators or several conditions (glue: the tree is not a single atom); distinct by input hash.")
     cov["samples"] = [c["input"] for c in cases[:2]] + [c["input"] for c in e2e_sample(cases)]
-    cov["explanation"] = ("translation validation: Coq theorem C13_checker_sound (and C13_inequality_sound, C13_expression_sound) makes each "
+    cov["explanation"] = ("translation validation: Coq theorem C13_checker_sound (and C13_inequality_sound, C13_expression_sound, C13_disjunction_sound) makes each "
                           "accepted output a proof of equivalence up to rounding for that input; nothing is claimed for inputs that were not run")
     cov["trusted_base"] = cov.get("trusted_base", []) + [
         "sympy is NOT trusted: each of its outputs is checked; what is not checked is its behaviour on inputs not generated in this run",
